@@ -28,14 +28,13 @@ import (
 // Pass-through parts of package sync, so that any edited tree still compiles.
 type (
 	WaitGroup = sync.WaitGroup
-	Map       = sync.Map
 	Cond      = sync.Cond
 	Locker    = sync.Locker
 )
 
-func NewCond(l Locker) *Cond                                  { return sync.NewCond(l) }
-func OnceFunc(f func()) func()                                { return sync.OnceFunc(f) }
-func OnceValue[T any](f func() T) func() T                    { return sync.OnceValue(f) }
+func NewCond(l Locker) *Cond                                   { return sync.NewCond(l) }
+func OnceFunc(f func()) func()                                 { return sync.OnceFunc(f) }
+func OnceValue[T any](f func() T) func() T                     { return sync.OnceValue(f) }
 func OnceValues[T1, T2 any](f func() (T1, T2)) func() (T1, T2) { return sync.OnceValues(f) }
 
 // Sim point kinds (also the event kinds of the controller's log).
@@ -358,8 +357,8 @@ func (m *RWMutex) RUnlock() {
 	}
 }
 
-func (m *RWMutex) TryLock() bool  { return m.mu.TryLock() }
-func (m *RWMutex) TryRLock() bool { return m.mu.TryRLock() }
+func (m *RWMutex) TryLock() bool   { return m.mu.TryLock() }
+func (m *RWMutex) TryRLock() bool  { return m.mu.TryRLock() }
 func (m *RWMutex) RLocker() Locker { return (*rlocker)(m) }
 
 type rlocker RWMutex
@@ -384,6 +383,37 @@ func (o *Once) Do(f func()) {
 	}
 	o.once.Do(f)
 }
+
+// VerifReset re-arms the Once (process restart: a lazily initialised package-level value is initialised again
+// in the next run, by whichever task gets there first).
+func (o *Once) VerifReset() { o.once = sync.Once{} }
+
+// Map is the real sync.Map with a sim point before every operation: the operations are atomic one by one, what
+// a check-then-act sequence built from them does under interleaving is for the scheduler to explore.
+type Map struct{ m sync.Map }
+
+func mapPoint() {
+	if scheduled() {
+		yield(KAtomic, 0)
+	}
+}
+
+func (m *Map) Load(key any) (any, bool)               { mapPoint(); return m.m.Load(key) }
+func (m *Map) Store(key, value any)                   { mapPoint(); m.m.Store(key, value) }
+func (m *Map) LoadOrStore(key, value any) (any, bool) { mapPoint(); return m.m.LoadOrStore(key, value) }
+func (m *Map) LoadAndDelete(key any) (any, bool)      { mapPoint(); return m.m.LoadAndDelete(key) }
+func (m *Map) Delete(key any)                         { mapPoint(); m.m.Delete(key) }
+func (m *Map) Swap(key, value any) (any, bool)        { mapPoint(); return m.m.Swap(key, value) }
+func (m *Map) CompareAndSwap(key, old, new any) bool {
+	mapPoint()
+	return m.m.CompareAndSwap(key, old, new)
+}
+func (m *Map) CompareAndDelete(key, old any) bool { mapPoint(); return m.m.CompareAndDelete(key, old) }
+func (m *Map) Range(f func(key, value any) bool)  { mapPoint(); m.m.Range(f) }
+func (m *Map) Clear()                             { mapPoint(); m.m.Clear() }
+
+// VerifReset empties the map (process restart).
+func (m *Map) VerifReset() { m.m.Clear() }
 
 // ---------------------------------------------------------------- scheduled mode plumbing
 
